@@ -146,6 +146,9 @@ def _validate_collection_of(
 class _InstanceOfValidator(_AttrInstanceOfValidator):
     def __call__(self, inst: Any, attr: attrs.Attribute, value: _T) -> None:
         try:
+            # For Python, True and False are integers. For TOML, they are not.
+            if isinstance(value, bool) and self.type is int:
+                raise TypeError("", attr, self.type, value)
             super().__call__(inst, attr, value)
         except TypeError as error:
             raise GlobalLicensingParseTypeError(
@@ -218,6 +221,13 @@ def _str_to_set(
 
 def _str_to_set_of_expr(value: Any) -> set[Expression]:
     value = _str_to_set(value)
+    if isinstance(value, Mapping):
+        # A table. Its keys are not licences.
+        raise GlobalLicensingParseTypeError(
+            _("Unexpected item in collection (got {value}).").format(
+                value=repr(value)
+            )
+        )
     result = set()
     # Expressions of equal meaning ('MIT OR 0BSD', '0BSD OR MIT') are equal,
     # so only the first one makes it into the set. Let that not depend on the
